@@ -291,7 +291,7 @@ func (env *Env) applyUF(uf *UFunc, c *ast.CallExpr) Value {
 			args = append(args, t)
 			sorts = append(sorts, leavesOf(v.T)[j].Sort)
 			// atomic integer arguments are instantiation candidates for universals
-			if sorts[len(sorts)-1] == sInt && !strings.ContainsAny(t, "( ") {
+			if sorts[len(sorts)-1] == sInt && len(t) < 300 && !isLiteralInt(t) {
 				env.s.trigger(sInt, t)
 			}
 		}
